@@ -611,16 +611,16 @@ pub fn generate(rs: u64, focus: &str) -> Trace {
     let nthreads = if crate::gen::thorough() { 2 + g.rng.weighted(&[35, 35, 30]) } else { 2 + g.rng.weighted(&[55, 30, 15]) };
     let mut threads: Vec<Vec<Op>> = vec![vec![]; nthreads];
     let scenario = match focus {
-        "C04" => g.rng.weighted(&[5, 5, 0, 10, 0, 10, 70, 0, 0, 0, 0, 0, 0, 0, 0]),
-        "C15" => g.rng.weighted(&[5, 5, 5, 10, 0, 30, 35, 10, 0, 0, 0, 0, 0, 0, 0]),
-        "C18" => g.rng.weighted(&[0, 0, 0, 0, 25, 10, 0, 0, 35, 0, 30, 0, 0, 0, 0]),
-        "C09" => g.rng.weighted(&[5, 70, 0, 5, 0, 15, 0, 0, 0, 0, 0, 0, 0, 0, 5]),
-        "C10" => g.rng.weighted(&[0, 0, 10, 0, 0, 20, 0, 65, 0, 0, 0, 0, 0, 0, 5]),
-        "C11" => g.rng.weighted(&[0, 5, 40, 0, 0, 15, 0, 10, 0, 0, 0, 0, 0, 0, 30]),
-        "C05" => g.rng.weighted(&[0, 30, 0, 30, 20, 20, 0, 0, 0, 0, 0, 0, 0, 1, 0]),
-        "C12" => g.rng.weighted(&[15, 5, 0, 0, 0, 10, 0, 10, 0, 0, 0, 60, 0, 0, 0]),
-        "C17" => g.rng.weighted(&[0, 10, 0, 0, 10, 15, 0, 0, 10, 45, 10, 0, 0, 0, 0]),
-        _ => g.rng.weighted(&[13, 13, 10, 13, 8, 12, 8, 7, 6, 4, 3, 4, 3, 1, 8]),
+        "C04" => g.rng.weighted(&[5, 5, 0, 10, 0, 10, 70, 0, 0, 0, 0, 0, 0, 0, 0, 0]),
+        "C15" => g.rng.weighted(&[5, 5, 5, 10, 0, 30, 35, 10, 0, 0, 0, 0, 0, 0, 0, 0]),
+        "C18" => g.rng.weighted(&[0, 0, 0, 0, 25, 10, 0, 0, 35, 0, 30, 0, 0, 0, 0, 0]),
+        "C09" => g.rng.weighted(&[5, 70, 0, 5, 0, 15, 0, 0, 0, 0, 0, 0, 0, 0, 5, 0]),
+        "C10" => g.rng.weighted(&[0, 0, 10, 0, 0, 20, 0, 65, 0, 0, 0, 0, 0, 0, 5, 0]),
+        "C11" => g.rng.weighted(&[0, 5, 40, 0, 0, 15, 0, 10, 0, 0, 0, 0, 0, 0, 30, 0]),
+        "C05" => g.rng.weighted(&[0, 25, 0, 25, 15, 15, 0, 0, 0, 0, 0, 0, 0, 1, 0, 20]),
+        "C12" => g.rng.weighted(&[15, 5, 0, 0, 0, 10, 0, 10, 0, 0, 0, 60, 0, 0, 0, 0]),
+        "C17" => g.rng.weighted(&[0, 10, 0, 0, 10, 15, 0, 0, 10, 40, 10, 0, 0, 0, 0, 5]),
+        _ => g.rng.weighted(&[13, 13, 10, 13, 8, 12, 8, 7, 6, 4, 3, 4, 3, 1, 8, 7]),
     };
     let known: Vec<EvSpec> = g.model.events.values().cloned().collect();
     let retr: Vec<B32> = g.model.retrievable.iter().copied().collect();
@@ -873,6 +873,21 @@ pub fn generate(rs: u64, focus: &str) -> Trace {
             for _ in 0..(1 + g.rng.usize(3)) {
                 threads[nthreads - 1].push(Op::Stats);
             }
+            // and asks for markers and holders in between (read-only calls that share the index
+            // layer with the writers)
+            if !known.is_empty() && g.rng.chance(1, 2) {
+                for _ in 0..(1 + g.rng.usize(2)) {
+                    let e = g.rng.pick(&known).clone();
+                    let op = match (e.addr(), g.rng.below(3)) {
+                        (Some(a), 0) => Op::AddrDeleted(a),
+                        (Some(a), 1) => Op::Holder(a),
+                        (None, 0) => Op::AddrDeleted(AddrKey { kind: 30000, pk: e.pk, d: b"x".to_vec() }),
+                        _ => Op::IsDeleted(e.id),
+                    };
+                    let pos = g.rng.usize(threads[nthreads - 1].len() + 1);
+                    threads[nthreads - 1].insert(pos, op);
+                }
+            }
         }
         10 => {
             // a key vanishes while the same key keeps publishing (plain events only: the
@@ -1025,6 +1040,65 @@ pub fn generate(rs: u64, focus: &str) -> Trace {
             if g.rng.chance(1, 3) {
                 let t = g.rng.usize(nthreads);
                 threads[t].push(Op::Store(v.clone()));
+            }
+        }
+        15 => {
+            // readers among themselves: two to four threads ask different questions (tag, author
+            // and tag, kind and tag, author and kind, ids, holders, markers) of a store that holds
+            // tagged events, with at most one writer beside them. Whatever the readers share
+            // (scratch buffers, memoised bounds, cached positions) must not leak from one
+            // question into another: every answer is the exact answer of a state.
+            let mut tagged: Vec<EvSpec> = vec![];
+            for _ in 0..g.rng.range(3, 7) {
+                let mut e = g.new_event();
+                let letter = *g.rng.pick(&["t", "p", "e", "r", "x"]);
+                let val = (*g.rng.pick(&["nostr", "x", "y", "", "conc", "other"])).to_string();
+                e.tags.push(vec![letter.to_string(), val]);
+                if g.rng.chance(1, 3) {
+                    e.tags.push(vec!["t".into(), "shared".into()]);
+                }
+                g_apply(&mut g, &e);
+                tagged.push(e.clone());
+                ops.push(Op::Store(e));
+            }
+            let writer = if g.rng.chance(1, 2) { Some(nthreads - 1) } else { None };
+            for t in 0..nthreads {
+                if Some(t) == writer {
+                    let mut e = g.new_event();
+                    e.tags.push(vec!["t".into(), "shared".into()]);
+                    threads[t].push(Op::Store(e));
+                    continue;
+                }
+                for _ in 0..(1 + g.rng.usize(3)) {
+                    let e = g.rng.pick(&tagged).clone();
+                    let own: Vec<(String, String)> = e.tags.iter().filter(|t| t.len() >= 2 && t[0].len() == 1 && t[0].chars().all(|c| c.is_ascii_alphabetic())).map(|t| (t[0].clone(), t[1].clone())).collect();
+                    let base = QuerySpec::all_allowed();
+                    let op = match (g.rng.below(8), own.is_empty()) {
+                        (0, false) | (1, false) => {
+                            let (l, v) = g.rng.pick(&own).clone();
+                            Op::Query(QuerySpec { tags: vec![(l.chars().next().unwrap(), vec![v])], ..base })
+                        }
+                        (2, false) => {
+                            let (l, v) = g.rng.pick(&own).clone();
+                            Op::Query(QuerySpec { authors: vec![e.pk], tags: vec![(l.chars().next().unwrap(), vec![v])], ..base })
+                        }
+                        (3, false) => {
+                            let (l, v) = g.rng.pick(&own).clone();
+                            Op::Query(QuerySpec { kinds: vec![e.kind], tags: vec![(l.chars().next().unwrap(), vec![v])], ..base })
+                        }
+                        (4, _) => Op::Query(QuerySpec { authors: vec![e.pk], kinds: vec![e.kind], ..base }),
+                        (5, _) => Op::Query(QuerySpec { ids: vec![e.id], ..base }),
+                        (6, _) => match e.addr() {
+                            Some(a) => Op::Holder(a),
+                            None => Op::Get(e.id),
+                        },
+                        _ => match e.addr() {
+                            Some(a) => Op::AddrDeleted(a),
+                            None => Op::IsDeleted(e.id),
+                        },
+                    };
+                    threads[t].push(op);
+                }
             }
         }
         8 => {
@@ -2013,6 +2087,40 @@ fn path_agreement(store: &Store, base: &Model, recs: &[OpRecord]) -> Vec<(&'stat
             let q = QuerySpec { authors: vec![e.pk], kinds: vec![e.kind], ..QuerySpec::all_allowed() };
             if let QueryOutcome::Ok(ids, _) = real::query(store, &q) {
                 let _ = by_author_kind.insert((e.pk, e.kind), ids.into_iter().collect());
+            }
+        }
+    }
+    // ... and through each of its single-letter tag values
+    let mut by_tag: BTreeMap<(char, String), BTreeSet<B32>> = BTreeMap::new();
+    let own_tags = |e: &EvSpec| -> Vec<(char, String)> {
+        e.tags
+            .iter()
+            .filter(|t| t.len() >= 2 && t[0].len() == 1 && t[0].chars().all(|c| c.is_ascii_alphabetic()) && t[1].len() <= 400)
+            .map(|t| (t[0].chars().next().unwrap(), t[1].clone()))
+            .collect()
+    };
+    for e in specs.values() {
+        for (l, v) in own_tags(e).into_iter().take(6) {
+            if !by_tag.contains_key(&(l, v.clone())) {
+                let q = QuerySpec { tags: vec![(l, vec![v.clone()])], ..QuerySpec::all_allowed() };
+                if let QueryOutcome::Ok(ids, _) = real::query(store, &q) {
+                    let _ = by_tag.insert((l, v), ids.into_iter().collect());
+                }
+            }
+        }
+    }
+    for (id, e) in &specs {
+        let has = store.has_event(pocket_types::Id::from_bytes(*id)).unwrap_or(false);
+        for (l, v) in own_tags(e).into_iter().take(6) {
+            if let Some(set) = by_tag.get(&(l, v.clone())) {
+                if set.contains(id) != has {
+                    let why = format!("{} is {} by id but {} through its tag {l}={:?}", short(id), if has { "retrievable" } else { "not retrievable" }, if set.contains(id) { "returned" } else { "not returned" }, v.chars().take(20).collect::<String>());
+                    out.push(("C17", why.clone()));
+                    if vanished.contains(&e.pk) {
+                        out.push(("C18", why));
+                    }
+                    return out;
+                }
             }
         }
     }
